@@ -250,7 +250,7 @@ def run(here, tier, seed, only=None):
     if only is not None:
         jobs = [(only["detail"]["kind"], only["detail"]["case"])]
     else:
-        scale = 1 if tier == "quick" else 25
+        scale = 3 if tier == "quick" else 40
         jobs = [("wmc", i) for i in range(700 * scale)] + [("formula_to_bdd", i) for i in range(350 * scale)] + [("cnf_to_bdd", i) for i in range(350 * scale)]
     viols, counters, samples, distinct = [], {}, [], set()
 
